@@ -98,18 +98,30 @@ theorem pos_exists (P : Parser σ) (fs : FS) (ipath : List Name) (main : Name) (
   exact ⟨key.1.1, key.1.2.2.2.2⟩
 
 /-- **invalid_clause_pos.**  A diagnostic for a clause rejected by the clause parser names the
-file and the FIRST physical line of that clause: the logical line that starts at `d.line` of
-`d.file` (continuation lines joined, trimmed) is a text the parser rejected in some state; the
+file and the FIRST physical line of that clause: `d.line` of `d.file` starts a logical line (it is line 1, or
+the physical line before it carries no continuation mark: `LineStart`), and the logical line that starts there
+(continuation lines joined, trimmed) is a text the parser rejected in some state; the
 chain lists the including files (each suspended right behind its include directive). -/
 theorem invalid_clause_pos (P : Parser σ) (fs : FS) (ipath : List Name) (main : Name) (n : Nat) (s : σ)
     (d : Diag) (h : load P fs ipath main n s = .error d) (hk : d.kind = .clause) :
     (∃ s' body tail bad raw rest k eof, fs d.file = .file body tail bad ∧
         clauseAt body tail bad d.line = .line raw rest k eof ∧
-        P.classify s' (trimSpace raw) = .reject) ∧
+        P.classify s' (trimSpace raw) = .reject ∧ LineStart body d.line) ∧
     ∀ p ∈ d.chain, AfterInclude fs p.1 p.2 := by
   have key := load_spec P fs ipath main n s
   rw [h] at key
   exact ⟨key.2 hk, key.1.2.2.2.2⟩
+
+/-- `LineStart` tells continuation lines apart: in the file `x \⏎bad` line 2 continues line 1 and is no place a clause
+can be reported at (the statement without `LineStart` would have allowed it), line 1 is -/
+example : ¬ LineStart [[120, 32, 92], [98, 97, 100]] 2 ∧ LineStart [[120, 32, 92], [98, 97, 100]] 1 := by
+  refine ⟨?_, Or.inl rfl⟩
+  intro h
+  rcases h with h | ⟨l, hl, he⟩
+  · cases h
+  · simp at hl
+    subst hl
+    revert he; decide
 
 /-- … and conversely the FIRST clause the parser rejects is the one reported, at the position
 `readLine` handed out with it, with the chain of the frames below. -/
@@ -154,7 +166,7 @@ theorem depth_refused (fs : FS) (ipath : List Name) (tbl : Table) (r : Frame) (b
     ∃ d, readLine fs ipath tbl (r :: below) = .err d ∧ d.kind = .depth ∧ d.file = r.file ∧
       d.line = r.lineno ∧ d.chain = chainOf below := by
   obtain ⟨_, hok, hbelow⟩ := hinv
-  obtain ⟨body', tail', hfs', _, hk1, hnp, _⟩ := line_pos hok hg hni
+  obtain ⟨body', tail', hfs', _, ⟨hk1, hnp, _⟩, _⟩ := line_pos hok hg hni
   obtain ⟨_, _, _, hln, _⟩ := hok
   obtain ⟨d, h1, _, h3, h4, h5, h6⟩ :=
     wrap_ok (r := r.advance rest k eof) (below := below) (start := r.lineno) .depth
